@@ -114,7 +114,7 @@ func runC19(c *core.Ctx) {
 		c.Abort("reference self test failed: %s", st)
 		return
 	}
-	c.Rule = "9 hrps (4 known, upper case, near misses) x every version byte 0..255 x every payload length that fits 90 characters (0..50) x 2 payload fillings through ParseBech32; corpus of invalid Bech32 spellings; round trip of the three address kinds x 4 prefixes x 64 hashes; migration: 300 addresses round trip, every single-tryte substitution, lengths 80/82, non-tryte characters, prefix/suffix changes; non-trivial = distinct inputs accepted"
+	c.Rule = "9 hrps (4 known, upper case, near misses) x every version byte 0..255 x every payload length that fits 90 characters (0..50) x 2 payload fillings through ParseBech32; corpus of invalid Bech32 spellings; round trip of the three address kinds x 4 prefixes x 64 hashes; migration: 300 addresses round trip, every single-tryte substitution, every tryte-pair substitution of every b1t6 group, lengths 80/82, non-tryte characters, prefix/suffix changes; non-trivial = distinct inputs accepted"
 	var nontriv int64
 	hrps := []string{"iota", "atoi", "smr", "rms", "IOTA", "iot", "iotaa", "tiota", "rm", "Smr", "iota1"}
 	acc := make([]int64, 256)
@@ -259,6 +259,23 @@ func runC19(c *core.Ctx) {
 			}
 			for _, v := range []string{"a", "0", " ", "\x00", "\xff", "Ω", "", "99"} {
 				c19JudgeMig(c, s[:pos]+v+s[pos+1:], "nontryte")
+			}
+		}
+		// both trytes of one b1t6 group replaced: every one of the 729 tryte pairs at each of the 36 groups (non-code
+		// words, and second spellings of a byte if the decoder's range check is loose)
+		if i < 6 || (i%50 == 0) {
+			for g := 0; g < 36; g++ {
+				pos := 8 + 2*g
+				for a := 0; a < 27; a++ {
+					for b := 0; b < 27; b++ {
+						if alphabet[a] == s[pos] && alphabet[b] == s[pos+1] {
+							continue
+						}
+						if c19JudgeMig(c, s[:pos]+string([]byte{alphabet[a], alphabet[b]})+s[pos+2:], "group") {
+							macc[i]++
+						}
+					}
+				}
 			}
 		}
 		for _, v := range []string{s + "9", s[:80], "9" + s, s[1:], strings.ToLower(s), "TRANSFEQ" + s[8:], s[:80] + "A", "", s + s} {
